@@ -57,6 +57,13 @@ def jobs(tier, seed):
         cases = [(k, d, s_) for k in (1, 2, 3, 4) for d in range(64) for s_ in (0, 1)]
     else:
         cases = [(k, d, rnd.randrange(2)) for k in (1, 2, 3, 4) for d in [27, rnd.choice(POOL[1:])]]
+    if os.environ.get("C18_SUFFIX_EXP"):
+        k, s_, men = [int(x) for x in os.environ["C18_SUFFIX_EXP"].split(":")]
+        name = f"c18_suffix_{KINDS[k]}_{'wb'[s_]}_m{men}"
+        attrs = ["#[kani::proof]", "#[kani::unwind(12)]", "#[kani::stub(crate::chess::movegen::gen::generate_legal_moves, c18::stub_generate)]"]
+        attrs += [f"#[kani::stub({a}, {b})]" for a, b in GEOM_STUBS]
+        src = "\n".join(attrs) + f"\npub fn {name}() {{ c18::suffix({k}, {s_}, {men}); }}\n"
+        return [Job(name, "experiment: check suffix of format_move", gen=src, timeout=1500, mem_gb=24, witness=False, min_covers=2)]
     if os.environ.get("C18_CASES"):
         cases = [tuple(int(y) for y in x.split(":")) for x in os.environ["C18_CASES"].split(",")]
     js = []
